@@ -827,6 +827,28 @@ class Interp:
         finally:
             self.frame.loops.pop()
 
+    def st_With(self, st):
+        exits = []
+        for item in st.items:
+            ctx = self.eval(item.context_expr)
+            entered = self.call(self.getattr(ctx, '__enter__'), [], {})
+            if item.optional_vars is not None:
+                self.assign_target(item.optional_vars, entered)
+            exits.append(ctx)
+        try:
+            self.exec_block(st.body)
+        finally:
+            # __exit__ runs on every path that entered (also the raising ones); it is called without the activity
+            # guard of the body by temporarily lifting the raise flag
+            saved = self.raised
+            self.raised = False
+            try:
+                for ctx in reversed(exits):
+                    self.call(self.getattr(ctx, '__exit__'), [None, None, None], {})
+            except _Abort:
+                pass
+            self.raised = simp_bool(lor(saved, self.raised))
+
     def st_Try(self, st):
         if st.finalbody or st.orelse:
             raise CannotEncode('try/finally or try/else')
